@@ -19,6 +19,7 @@ import (
 	"net/http/httptest"
 	"os"
 	"runtime"
+	"runtime/debug"
 	"sort"
 	"strconv"
 	"strings"
@@ -271,6 +272,27 @@ func (w *vfWorld) close() {
 	verifDial = nil
 	os.Setenv("TMPDIR", w.savedTmp)
 	os.RemoveAll(w.dir)
+}
+
+// vfBubble runs fn in a fresh synctest bubble with a fresh world and tears the world down.
+// Panics inside fn are caught inside the bubble (so that teardown still happens) and re-raised outside.
+func vfBubble(t *testing.T, fn func(w *vfWorld)) {
+	var caught any
+	var stack []byte
+	synctest.Test(t, func(t *testing.T) {
+		w := newVFWorld(t)
+		defer w.close()
+		defer func() {
+			if r := recover(); r != nil {
+				caught = r
+				stack = debug.Stack()
+			}
+		}()
+		fn(w)
+	})
+	if caught != nil {
+		panic(fmt.Sprintf("%v\n%s", caught, stack))
+	}
 }
 
 // ---------------------------------------------------------------- fake targets
